@@ -52,7 +52,8 @@ uint32_t xorshift128(struct xorshift128_state *state)
 	return state->x[0] = t ^ s ^ (s >> 19);
 }
 
-uint32_t XOR128_SEED = 0;
+/* one generator state per thread: a worker that seeds and draws is not disturbed by other threads */
+__thread uint32_t XOR128_SEED = 0;
 
 void srand_(uint32_t seed)
 {
